@@ -35,7 +35,10 @@ def shard(xs):
   """
   local_device_count = jax.local_device_count()
   return jax.tree_util.tree_map(
-    lambda x: x.reshape((local_device_count, -1) + x.shape[1:]), xs
+    lambda x: x.reshape(
+      (local_device_count, x.shape[0] // local_device_count) + x.shape[1:]
+    ),
+    xs,
   )
 
 
